@@ -100,7 +100,7 @@ pub fn replay(args: &[String]) {
         }
         rig.log.borrow_mut().clear();
         run += 1;
-        let (res, halted) = run_timed(&text, rig.base.clone(), 5000);
+        let (res, halted) = run_timed(&text, rig.base.clone(), 20000);
         let exp: Vec<Vec<String>> = rec["trace"].as_array().unwrap().iter().map(|e| { let e = e.as_array().unwrap(); vec![(e[0].as_i64().unwrap() + 2).to_string(), e[1].as_i64().unwrap().to_string(), z(&e[2])] }).collect();
         let verdict = if halted { "hang".to_string() } else { match res {
             Err(p) => format!("panic {}", p),
@@ -208,7 +208,7 @@ pub fn record(args: &[String]) {
         if prog.is_empty() { continue; }
         let text = render_flow(&prog, 3);
         rig.log.borrow_mut().clear();
-        let (res, halted) = run_timed(&text, rig.base.clone(), 5000);
+        let (res, halted) = run_timed(&text, rig.base.clone(), 20000);
         let got: Vec<Value> = rig.log.borrow().iter().map(|e| { let a = strs(&e["args"]); json!([e["line"].as_u64().unwrap() - 2, a[0].parse::<i64>().unwrap_or(-1), a[1].parse::<i64>().unwrap_or(0)]) }).collect();
         if got.len() > 600 { continue; }   // keep the reference within its fuel
         let (ok, why, c, i) = if halted { (false, "hang".to_string(), 0, 0) } else { match res {
@@ -272,7 +272,7 @@ pub fn replay_func(args: &[String]) {
         rig.log.borrow_mut().clear();
         run += 1;
         if std::env::var("VH_TRACE").is_ok() { eprintln!("TRY {}", text.replace('\n', " / ")); }
-        let (res, halted) = run_timed(&text, rig.base.clone(), 5000);
+        let (res, halted) = run_timed(&text, rig.base.clone(), 20000);
         let exp: Vec<Vec<i64>> = rec["trace"].as_array().unwrap().iter().map(|e| e.as_array().unwrap().iter().enumerate().map(|(k, x)| x.as_i64().unwrap() + if k == 0 { 2 } else { 0 }).collect()).collect();
         let verdict = if halted { "hang".to_string() } else { match res {
             Err(p) => format!("panic {}", p),
@@ -366,7 +366,7 @@ pub fn record_func(args: &[String]) {
         }
         let text = render_func(&prog, fnend);
         rig.log.borrow_mut().clear();
-        let (res, halted) = run_timed(&text, rig.base.clone(), 3000);
+        let (res, halted) = run_timed(&text, rig.base.clone(), 20000);
         let got: Vec<Value> = rig.log.borrow().iter().map(|e| { let a = strs(&e["args"]); let mut v = vec![e["line"].as_i64().unwrap() - 2]; for k in 0..4 { v.push(a.get(k).map(|x| num(x)).unwrap_or(0)); } json!(v) }).collect();
         if got.len() > 500 { continue; }
         let g = |c: &Context, k: &str| c.variables.get(k).map(|x| num(x)).unwrap_or(0);
